@@ -5,31 +5,31 @@ V = os.path.dirname(os.path.dirname(os.path.abspath(__file__)))
 BASELINE = json.load(open("/root/.vp/BASELINE.json"))["cmd"] if os.path.exists("/root/.vp/BASELINE.json") else ""
 
 CHECKS = {
- "C09": dict(cat="model_checking", ref="DESIGN.md §4 C09, §3.3",
+ "C09": dict(cat="model_checking", ref="DESIGN.md §4 C09, §3",
    text="Ring.tla models ring.Buffer at representation level (size, r, w, isEmpty, cells); TLC checks the FIFO/accounting invariants in every reachable representation state and the labelled state graph is replayed edge by edge on the real ring.Buffer with a position-stamped FIFO oracle; a second configuration uses the real constants at byte granularity.",
    note="Trusted: TLC, the Go toolchain, the scripted io.Reader/io.Writer alphabet. Exhaustive for sizes in 256-byte units up to 6400 bytes; boundary byte sizes to depth 3; larger histories by trace validation.",
    tech="TLA+ spec + TLC exhaustive; transition-cover replay of the TLC state graph into the real object; trace validation"),
- "C10": dict(cat="model_checking", ref="DESIGN.md §4 C10, §3.3",
+ "C10": dict(cat="model_checking", ref="DESIGN.md §4 C10, §3",
    text="Elastic.tla composes the ring algorithms (RingOps) and the list algorithms (ListOps) into elastic.RingBuffer/elastic.Buffer with lazy pooled allocation and the static-limit switch-over; TLC checks ring cell content, lazy-return and count invariants exhaustively; every labelled edge is replayed on a real elastic.Buffer against a stamped-byte FIFO oracle.",
    note="Trusted: TLC, Go toolchain, scripted reader/writer alphabet; the sync.Pool is primed so that lazy allocation is controlled (misses are counted and skipped). Writev with > 1024 segments is covered at connection level (C02).",
    tech="TLA+ spec + TLC exhaustive; transition-cover replay of the TLC state graph into the real object"),
- "C11": dict(cat="model_checking", ref="DESIGN.md §4 C11, §3.3",
+ "C11": dict(cat="model_checking", ref="DESIGN.md §4 C11, §3",
    text="LList.tla models linkedlist.Buffer as the list of segment lengths over FIFO-normal-form content; TLC checks no-empty-node / count invariants over all operation sequences within the bounds; every labelled edge is replayed on a real linkedlist.Buffer, including the copy semantics of PushBack/PushFront (the harness scribbles over its slice after the call).",
    note="Trusted: TLC, Go toolchain, scripted reader/writer alphabet. Bounds: <= 4 segments, <= 12 units of 128 bytes, plus byte sizes around 512 to depth 3.",
    tech="TLA+ spec + TLC exhaustive; transition-cover replay of the TLC state graph into the real object"),
- "C12": dict(cat="model_checking", ref="DESIGN.md §4 C12, §3.7",
+ "C12": dict(cat="model_checking", ref="DESIGN.md §4 C12, §3",
    text="Pools.tla is an ownership ledger of the byte-slice pool and the ring-buffer pool (arrays, handed-out slices, pooled regions per size class, sync.Pool free to drop or return anything); TLC checks no-alias / within-bounds invariants over all Get/Put/Drop interleavings; recorded histories of the real pools (single and multi goroutine, across GCs, tail re-slices, foreign and zero-capacity slices), with regions normalised to (array, offset, len, cap), are validated against the spec by TLC with every invariant evaluated at every event.",
    note="Trusted: TLC; the harness keeps all arrays alive so addresses identify arrays; sizes up to 2^20 (class arithmetic to 2^31 is covered by C20).",
    tech="TLA+ ledger spec + TLC exhaustive; trace validation of recorded pool histories (PoolsTrace.tla)"),
- "C14": dict(cat="model_checking", ref="DESIGN.md §4 C14, §3.6",
+ "C14": dict(cat="model_checking", ref="DESIGN.md §4 C14, §3",
    text="ConnMatrix.tla transcribes addConn/delConn/getConn/iterate of the compacting registry (table, reverse index, per-connection position, next-slot pointer, per-row counts); TLC checks faithful-map, count, density and coherence invariants over all add/remove/lookup/iterate sequences; every labelled edge is replayed on the real registry of both builds (gc_opt matrix and default map), also with the real matrix pre-filled so that operations straddle the 65536-entry row boundary.",
    note="Trusted: TLC, Go toolchain. Model dimensions 2x3 (quick) / 3x3 (thorough) stand for 256x65536; observables (lookups of every descriptor, count, visited multiset) are compared, positions are not.",
    tech="TLA+ spec + TLC exhaustive; transition-cover replay of the TLC state graph into the real object (both build variants)"),
- "C15": dict(cat="model_checking", ref="DESIGN.md §4 C15, §3.5",
+ "C15": dict(cat="model_checking", ref="DESIGN.md §4 C15, §3",
    text="LB.tla states the three policies (round-robin turn, least-connections arg-min, hash as an unknown but functional map into the registered loops); TLC checks range / fairness / functionality exhaustively for small engines; seeded histories of accepts and closes on the real balancers (1..256 loops, IPv4/IPv6-zone/Unix/empty addresses) are validated decision by decision against the spec by TLC.",
    note="Trusted: TLC. Least-connections is judged at quiescent points; which goroutine runs a connection's callbacks is C05's trace invariant.",
    tech="TLA+ spec + TLC exhaustive; trace validation of recorded balancer decisions (LBTrace.tla)"),
- "C16": dict(cat="exploration", ref="DESIGN.md §4 C16, §3.8",
+ "C16": dict(cat="exploration", ref="DESIGN.md §4 C16, §3",
    text="Addrs.tla is the executable definition of the listen-address grammar with the acceptable outcome classes per string and of the capacity / chunk / loop-count normalisation; TLC evaluates it into tables which are checked against parseProtoAddr, createListeners, NewClient, determineEventLoops and Run; seeded byte-level mutations of the generated strings check totality. No state machine is involved, hence exploration level.",
    note="Oracle defined in TLA+, evaluated by TLC; not model checking. Coverage-guided fuzzing is not used.",
    tech="TLA+-defined oracle tables evaluated by TLC, replayed in Go; seeded mutation for totality"),
@@ -37,41 +37,41 @@ CHECKS = {
    text="(a) conversion vectors (families x ports x zones, invalid lengths, unsupported networks) defined in Addrs.tla and evaluated by TLC are round-tripped through the real conversion functions; (b) the AddrStable invariant of the connection traces (peer's own view of its address vs RemoteAddr/LocalAddr at every callback under churn) is part of the system-level trace validation.",
    note="(a) is a TLA+-defined oracle, exploration level; zones: loopback interface name and numeric indices without interface.",
    tech="TLA+-defined oracle tables evaluated by TLC, replayed in Go; trace invariant for address stability"),
- "C20": dict(cat="exploration", ref="DESIGN.md §4 C20, §3.8",
+ "C20": dict(cat="exploration", ref="DESIGN.md §4 C20, §3",
    text="Tables.tla defines Ceil/Floor/Closest/IsPowerOfTwo, the size-class function and the GFD layout mathematically; TLC evaluates exact vectors (every n in -3..4100, 2^k+d for k<=62) and the interval table, with an ASSUME that the symbolic rules used above 2^30 agree with the mathematical definitions below; the Go harness checks every vector and sweeps every interval (all points up to 2^31 in the thorough tier, 2^22 plus 200k samples per larger interval in quick).",
    note="Pure functions: TLA+ serves as the executable definition, nothing is model-checked. ClosestPowerOfTwo domain 1..2^62.",
    tech="TLA+-defined oracle tables evaluated by TLC, replayed in Go; exhaustive 32-bit sweep against the interval table"),
- "C03": dict(cat="model_checking", ref="DESIGN.md §4 C03, §3.2",
+ "C03": dict(cat="model_checking", ref="DESIGN.md §4 C03, §3",
    text="Poller.tla models Trigger / Polling at the granularity of the code segments between verif gates (threshold test, link, counter increment, CAS, eventfd write; epoll_wait, dequeue, counter decrement, run, store 0, re-check, self wake-up); TLC checks exec-at-most-once, no-lost-wake-up, high-priority FIFO and that every accepted task eventually runs, over all interleavings. Every labelled edge of the graph is executed as a schedule of the real Poller (both epoll variants) under a gate scheduler, with flag, queues, counters, executed tasks and the kernel's readiness of the epoll descriptor compared after every step; each schedule is then run to quiescence and judged by a state witness (loop parked before epoll_wait(-1), descriptor not ready, accepted task not run).",
    note="Trusted: TLC, sequentially consistent atomics, ET eventfd semantics (cross-checked with poll(2) at every step). kqueue pollers cannot be built here. System-level effects of AsyncWrite/Wake/Close/Execute are part of the connection traces.",
    tech="TLA+ spec + TLC exhaustive with liveness; TLC state graph replayed as controlled schedules of the real code (gate scheduler); state-witness oracle"),
- "C13": dict(cat="model_checking", ref="DESIGN.md §4 C13, §3.1",
+ "C13": dict(cat="model_checking", ref="DESIGN.md §4 C13, §3",
    text="MSQueue.tla models the Michael-Scott queue one action per atomic load / CAS / counter update with the abstract FIFO as ghost state and assertions at the linearisation points; TLC checks linearizability, no loss / duplication, per-producer FIFO, the length-lag lemma and termination under weak fairness over all interleavings. Every labelled edge of the graph is executed as a schedule of the real queue under the gate scheduler with head / tail / next pointers and the counter compared after every step; call/return histories of these schedules, of seeded PCT schedules and of ungated stress windows are validated by QueueLin.tla, where TLC searches for a linearisation.",
    note="Trusted: TLC, sequentially consistent atomics, no ABA (GC). Bounds: 2 enqueuers x 1 + 1 dequeuer x 2 replayed; 2x2 + 2x2 model-checked in the thorough tier.",
    tech="TLA+ spec + TLC exhaustive with liveness; TLC state graph replayed as controlled schedules of the real code; trace validation with linearisation search (QueueLin.tla)"),
- "C01": dict(cat="model_checking", ref="DESIGN.md §4 C01, §3.4",
-   text="Conn.tla models one connection on its loop (read loop with leftovers, LT/ET/ET-chunk, RDHUP handling, adversarial handler) over an abstract kernel and peer; TLC checks prefix/accounting/everything-offered-before-EOF invariants exhaustively and that a sending peer is always served (liveness). Real engines are driven by scripted peers (segmentations incl. 1 byte, exactly the read buffer, data+FIN, lock-step) and handlers (Read/Next/Peek+Discard/Discard/WriteTo, lazy, peek-only); every handler operation, peer action and read(2) result is recorded and validated by TLC against TrIn.tla (content, prefix, consumed+InboundBuffered=delivered at every operation, all offered before an EOF close).",
+ "C01": dict(cat="model_checking", ref="DESIGN.md §4 C01, §3",
+   text="Conn.tla models one connection on its loop (read loop with leftovers, LT/ET/ET-chunk, RDHUP handling, adversarial handler) over an abstract kernel and peer; TLC checks prefix/accounting/everything-offered-before-EOF invariants exhaustively and that a sending peer is always served (liveness). Real engines -- servers (Run, Rotate with three listeners, zoned IPv6) and gnet.Client engines (Dial / DialContext / Enroll / EnrollContext) -- are driven by scripted peers (segmentations incl. 1 byte, exactly the read buffer, data+FIN, lock-step) and handlers (Read/Next/Peek+Discard/Discard/WriteTo, lazy, peek-only); every handler operation, peer action and read(2) result is recorded and validated by TLC against TrIn.tla (content, prefix, consumed+InboundBuffered=delivered at every operation, all offered before an EOF close).",
    note="Trusted: TLC, the kernel's socket semantics, the recorder's ordering discipline (single sequence under a lock, senders log before publishing). Segmentation inside one read(2) is the kernel's choice except for lock-step peers. BSD/Windows files cannot be built here.",
    tech="TLA+ spec + TLC exhaustive with liveness (Conn.tla); trace validation of recorded real-socket executions against TrIn.tla / TrLife.tla"),
- "C02": dict(cat="model_checking", ref="DESIGN.md §4 C02, §3.4",
+ "C02": dict(cat="model_checking", ref="DESIGN.md §4 C02, §3",
    text="Conn.tla carries the outbound side with byte identities (accepted, buffered, in the kernel, received, dropped at close), short writes, EAGAIN, a stalling peer, ReadFrom+Flush, asynchronous writes; TLC checks exact order / no loss while open / LT-armed-iff-backlog and that accepted data drain while the peer reads. Recorded real executions (framed, position-stamped output; Write/Writev/ReadFrom+Flush/OnOpen reply/AsyncWrite(v), floods of >1024 queued requests, tiny socket buffers, slow and stalling peers) are validated against TrOut.tla: per-writer order, content, only-issued, OutboundBuffered = accepted - handed-to-kernel at every operation (write(2) results come from the verif hooks), completeness at drain, stranded-output state witness.",
    note="As C01. Output that does not fit at close is dropped by design (named deviation CloseBestEffortFlush), so completeness is only required of connections that stay open until drained.",
    tech="TLA+ spec + TLC exhaustive with liveness (Conn.tla); trace validation against TrOut.tla"),
  "C04": dict(cat="model_checking", ref="DESIGN.md §4 C04",
    text="Conn.tla checks open-once / close-once-iff-opened / nil-error-iff-local exhaustively over racing close causes (peer FIN, handler Close action, EventLoop.Close in a callback, asynchronous Close, close at OnOpen). Recorded executions with random histories of close causes, late requests through handles of closed connections while fresh connections reuse their descriptor numbers, farewell writes from OnClose, are validated against TrLife.tla (OpenOnce, TrafficOnlyWhileOpen, CloseOnceIffOpen, CloseErrNilIffLocal, AsyncOnClosedIsErrClosed, WakeCloseOnClosedAreNoops, NeverOnOtherConn, CountEqualsOpenAtQuiescence).",
-   note="As C01. Connected client UDP sockets are not yet driven.",
+   note="As C01. Client stream connections are driven; connected client UDP sockets are not.",
    tech="TLA+ spec + TLC exhaustive (Conn.tla); trace validation against TrLife.tla"),
  "C06": dict(cat="model_checking", ref="DESIGN.md §4 C06",
-   text="Real engines are shut down from every documented source (Engine.Stop, Stop, OnTick, OnOpen, OnTraffic, OnClose actions, OnBoot) in reactor and reuse-port mode while connections are idle, active and being accepted and a slow OnTick is in flight; the recorded executions are validated against TrLife.tla: Run returns nil, every opened connection closed before it returns, OnShutdown exactly once, nothing runs after the return, an OnBoot shutdown starts nothing; a Run that does not return is reported from the harness deadline.",
-   note="Bounded time = 20 s deadline on an otherwise idle machine. The Engine.tla design model (shutdown ordering) is still to be written; the decision is by trace validation.",
-   tech="trace validation of recorded shutdown races against TrLife.tla (TLA+ trace specification checked by TLC)"),
+   text="Engine.tla models one engine (acceptors in reactor / reuse-port mode, hand-off of accepted sockets through the loops' task queues, every shutdown source, the six steps of engine.stop, the ticker goroutine, Engine.Register); TLC checks OnShutdown-once, all-opened-closed-before-return, nothing-runs-after-return, boot-shutdown-starts-nothing and that a requested shutdown terminates (weak fairness of loops, stop goroutine, ticker) over all interleavings, and every recorded engine life (server and gnet.Client) is validated against its actions by EngineTrace.tla. Real engines are shut down from every documented source (Engine.Stop, Stop, OnTick, OnOpen, OnTraffic, OnClose actions, OnBoot) in reactor and reuse-port mode while connections are idle, active and being accepted and a slow OnTick is in flight; the recorded executions are validated against TrLife.tla: Run returns nil, every opened connection closed before it returns, OnShutdown exactly once, nothing runs after the return, an OnBoot shutdown starts nothing; a Run that does not return is reported from the harness deadline.",
+   note="Bounded time = 20 s deadline on recorded runs, termination under fairness in the model. A life that Engine.tla cannot explain is reported as a NONCONFORMANCE (mechanism level); the property verdict on the same log comes from TrLife.tla.",
+   tech="TLA+ spec + TLC exhaustive with liveness (Engine.tla); trace validation of recorded shutdown races against TrLife.tla and against the actions of Engine.tla (EngineTrace.tla)"),
  "C07": dict(cat="model_checking", ref="DESIGN.md §4 C07",
-   text="A descriptor ledger (TrFd.tla) is fed by verif hooks after every system call that creates, uses, polls or closes a descriptor, by canary goroutines that reuse just-closed numbers at once, by Dup'ed descriptors held beyond the connection's close, and by /proc/self/fd snapshots; TLC validates every recorded execution: fresh descriptors are unowned, use / poll only owned descriptors, close owned once, foreign and user descriptors untouched, nothing owned after Run returns. Conn.tla checks that no system call is made on a closed descriptor in the design.",
+   text="A descriptor ledger (TrFd.tla) is fed by verif hooks after every system call that creates, uses, polls or closes a descriptor, by canary goroutines that reuse just-closed numbers at once, by Dup'ed descriptors held beyond the connection's close, and by /proc/self/fd snapshots; TLC validates every recorded execution: fresh descriptors are unowned, use / poll only owned descriptors, close owned once, foreign and user descriptors untouched, nothing owned after Run / Rotate / Client.Stop returns (server engines, client engines dialling and enrolling connections, Rotate over several listeners including one whose later address cannot be bound: Unix-socket files removed). Conn.tla checks that no system call is made on a closed descriptor in the design; Engine.tla shows that a socket queued behind the exit signal is the only way an accepted socket stays open (KF-1).",
    note="Hooks run after the call; the ledger's `dying` set accounts for numbers the kernel reuses before the close is logged. Known finding KF-1 (pending registrations leak at shutdown) is reported as such.",
    tech="trace validation against TrFd.tla (TLA+ ledger specification checked by TLC); Conn.tla invariant NoFailedCheck"),
  "C19": dict(cat="model_checking", ref="DESIGN.md §4 C19",
-   text="Control.tla is the state machine of the control API (never started / running / stopping / stopped x Validate, CountConnections, Dup, DupListener, Register variants, Execute, Enroll, Stop with live and expired contexts); TLC checks monotonicity and enumerates all call sequences up to length 4, each of which is replayed on a real engine with the result class compared; Stop(nil)-only-after-full-shutdown is also checked on the recorded shutdown races (TrLife.tla).",
-   note="Known finding KF-2 (Register during shutdown never yields a result) is reported as such. The poll interval of Engine.Stop is shortened through its package variable for the replay.",
+   text="Control.tla is the state machine of the control API (never started / running / stopping / stopped x Validate, CountConnections, Dup, DupListener, Register variants, Execute, Enroll, Stop with live and expired contexts); TLC checks monotonicity and enumerates all call sequences up to length 4, each of which is replayed on a real engine with the result class compared; Stop(nil)-only-after-full-shutdown is also checked on the recorded shutdown races (TrLife.tla) and in Engine.tla (the flag Stop polls is only set after every loop has exited, every connection was closed and the listeners are gone), whose actions the recorded shutdowns are validated against (EngineTrace.tla).",
+   note="Known finding KF-2 (Register during shutdown never yields a result; Engine.tla reproduces it) is reported as such. A runnable accepted by Execute while the engine is stopping may never run (neither C19 nor C03 promises otherwise). The poll interval of Engine.Stop is shortened through its package variable for the replay.",
    tech="TLA+ spec + TLC exhaustive; transition-cover replay of the TLC state graph on real engines; trace validation against TrLife.tla"),
  "C05": dict(cat="model_checking", ref="DESIGN.md §4 C05",
    text="Confinement is decided by TrLife.tla on recorded executions: every callback event carries the goroutine and the loop, and TLC checks that all callbacks of one loop run on one goroutine, that a connection never changes loops and that asynchronous callbacks run on the owning loop. Freedom from data races cannot be decided by a model that only sees hooked events: as an adjunct oracle the same scenarios plus an API hammer (SafeContext/SetSafeContext, Fd, Dup, socket options, CountConnections, Execute, Wake, Engine.Dup during start/stop) run under the Go race detector with the recorder off and a plain per-loop word written in every callback.",
@@ -79,11 +79,11 @@ CHECKS = {
    tech="trace validation against TrLife.tla (TLA+ trace specification checked by TLC); adjunct: Go race detector"),
  "C08": dict(cat="model_checking", ref="DESIGN.md §4 C08",
    text="UDP engines ({udp, udp4, udp6} x IPv4/IPv6 loopback x {1, 3 loops} x {default, poll_opt}) receive datagrams of sizes 0..65507 from several senders with at most 4 in flight each; the handler consumes none / part / all and answers with Write and/or SendTo(another sender). The recorded execution is validated by TrUdp.tla: one OnTraffic per datagram (at most once always, exactly once at quiescence), payload and boundaries intact, InboundBuffered = payload length, no carry-over after partial consumption, RemoteAddr = sender, every reply exactly once, intact, at the socket it was addressed to.",
-   note="At-least-once relies on loopback not dropping with little in flight. Datagrams larger than the read buffer are outside the statement.",
+   note="Datagrams the kernel itself discarded on reception (the namespace's UDP InErrors counters, read around every life) were never received and are not demanded. Datagrams larger than the read buffer are outside the statement.",
    tech="trace validation against TrUdp.tla (TLA+ trace specification checked by TLC)"),
  "C18": dict(cat="fault_enumeration", ref="DESIGN.md §4 C18",
-   text="One system-call fault per engine life is injected with strace into the event-loop thread (pinned with WithLockOSThread): {read, write, writev, epoll_ctl, epoll_wait, accept4} x errno x call index x {LT, ET}, while bystander connections carry checked traffic and a probe connection tests liveness afterwards. The recorded executions are validated by TrLife.tla (the failing connection is closed exactly once with an error, a write that reports an error has closed the connection, retryable errnos leave no trace, engine keeps running), TrIn/TrOut (bystanders' streams intact) and TrFd (descriptor released once).",
-   note="close(2), fatal accept errnos and non-EINTR epoll_wait errors are not injected (fatal by design / would fake leaks). Needs ptrace permission for strace; without it the check reports a machinery failure, not a verdict.",
+   text="One system-call fault per engine life is injected with strace into the event-loop thread (pinned with WithLockOSThread): {read, write, writev, epoll_ctl (call index raised until ADD, MOD and DEL have each been failed), epoll_wait, accept4} x errno x call index x {LT, ET}, while bystander connections carry checked traffic and a probe connection tests liveness afterwards. The recorded executions are validated by TrLife.tla (the failing connection is closed exactly once with an error, a write that reports an error has closed the connection, retryable errnos leave no trace, engine keeps running), TrIn/TrOut (bystanders' streams intact) and TrFd (descriptor released once).",
+   note="Where each fault landed is read from strace's own log; a fault that landed on a write to the poller's eventfd is outside the property and that life is discarded. close(2), fatal accept errnos and non-EINTR epoll_wait errors are not injected (fatal by design / would fake leaks). Needs ptrace permission for strace; without it the check reports a machinery failure, not a verdict.",
    tech="strace fault enumeration on the real engine; trace validation against TrLife / TrIn / TrOut / TrFd (TLA+ trace specifications checked by TLC)"),
 }
 NOT_YET = {}
